@@ -210,10 +210,7 @@ def run_async(desc, tier, seed, res):
             c = command.Command(frame.ForwardFrame(nbits, (1 << nbits) - 1))
             n0 = len(writes())
             try:
-                if driver in ("tridonic", "hasseb"):
-                    await asyncio.wait_for(d._send_raw(c), 2.0)
-                else:
-                    await asyncio.wait_for(d.send(c), 2.0)
+                await asyncio.wait_for(d.send(c), 2.0)
                 bad_len.append((nbits, "accepted", len(writes()) - n0))
             except asyncio.TimeoutError:
                 bad_len.append((nbits, "accepted-and-hung", len(writes()) - n0))
@@ -238,11 +235,9 @@ def run_async(desc, tier, seed, res):
         for c in cmds:
             n0 = len(writes())
             try:
-                # the frame itself, without the library's ENABLE DEVICE TYPE prefix (that is C15's subject)
-                if driver in ("tridonic", "hasseb"):
-                    results[len(marks)] = await asyncio.wait_for(d._send_raw(c), 5.0)
-                else:
-                    results[len(marks)] = await asyncio.wait_for(d.send(c), 5.0)
+                # the public entry point; the HID drivers put the ENABLE DEVICE TYPE frame in front themselves (where it has to
+                # be is C15's subject - here its packet is checked like any other and set aside)
+                results[len(marks)] = await asyncio.wait_for(d.send(c), 5.0)
                 marks.append((c, n0, len(writes()), None))
             except Exception as e:
                 marks.append((c, n0, len(writes()), e))
@@ -275,6 +270,16 @@ def run_async(desc, tier, seed, res):
                 continue
             exp = expected_packets(driver, c, None)
             got = ws[a:b]
+            if driver in ("tridonic", "hasseb") and len(f) == 16 and c.devicetype != 0:
+                edt_v = 0xC100 + c.devicetype
+                if not got:
+                    res.violation(f"C18/{driver}/packet-count", "nothing written for a command of an application extended set", wit)
+                    continue
+                if driver == "tridonic":
+                    prev_seq = check_tridonic_packet(got[0], 16, edt_v, False, prev_seq, res, {**wit, "packet": "ENABLE DEVICE TYPE prefix"})
+                elif got[0] != edt_v.to_bytes(2, "big"):
+                    res.violation("C18/hasseb/packet", f"{c}: prefix packet {got[0].hex()}, ENABLE DEVICE TYPE {c.devicetype} is {edt_v:04x}", wit)
+                got = got[1:]
             if driver == "tridonic":
                 if len(got) != 1:
                     res.violation("C18/tridonic/packet-count", f"{len(got)} packets written for one command", wit)
